@@ -244,6 +244,9 @@ class SymF64(object):
     def __float__(self):
         raise TypeError("float() of a symbolic double")
 
+    def __bool__(self):
+        return cur().decide(z3.Not(z3.fpIsZero(self.t)))
+
     def _cmp(self, o, op):
         if o is None:
             return {'eq': False, 'ne': True}.get(op, NotImplemented)
